@@ -1004,9 +1004,11 @@ def replay_histories(w):
 
 
 N_HIST = 3
-TASKS = (entry_tasks() + emitted_tasks() + [FiltersProxy(i, 3) for i in range(3)]
+_ALL = (entry_tasks() + emitted_tasks() + [FiltersProxy(i, 3) for i in range(3)]
          + [Bounded("C29", "C29.cache.immutable", cache_immutable, "bounded", replay_cache)]
          + [Bounded("C29", f"C29.bounded.histories[{i}]", bounded_histories(i, N_HIST), "bounded", replay_histories) for i in range(N_HIST)])
+_HEAVY = ("visit_For", "visit_Template", "visit_Macro", "visit_CallBlock", "runtime.new_context[vars=dict,globals=dict,locals=dict]")
+TASKS = sorted(_ALL, key=lambda t: 0 if any(h in t.name for h in _HEAVY) else 1)  # long tasks first (process pool)
 
 META = {
     "level": "other",
